@@ -359,7 +359,14 @@ func checkC06(P *Prog, r *Result) {
 						continue
 					}
 				}
-				r.ok("C06/panic-site", c, pos, "Interface() on a value not obtained through an (unexported) struct field of input data")
+				// Interface() panics on the zero Value: an input-derived receiver must be valid
+				if tainted && !P.onlyFromCallbackResults(s.operand, 0) {
+					if why := P.mayBeZeroValue(b, s.operand, map[ssa.Value]bool{}, 0); why != "" {
+						r.bad("C06/panic-site", c, pos, "reflect.Value.Interface() on a value derived from input data that may be the zero Value ("+why+"): 'call of reflect.Value.Interface on zero Value'")
+						continue
+					}
+				}
+				r.ok("C06/panic-site", c, pos, "Interface() on a valid value not obtained through an (unexported) struct field of input data")
 			case "reflect.write":
 				if tainted {
 					r.bad("C06/panic-site", c, pos, "reflect write through a value derived from input data")
@@ -525,6 +532,182 @@ func (P *Prog) viaFieldSelection1(rv ssa.Value, seen map[ssa.Value]bool) *ssa.Ca
 
 // guardedByCall: block b is dominated by `recv.<name>()` (or any call named
 // name when recv is nil) having the given truth value.
+// onlyFromCallbackResults: every root of v is the result of a user callback (directly, or as the actual
+// argument at every call site of the helper v is a parameter of). What a user function returns (a Preprocess
+// function's output is documented as "never a pointer") is the user's contract, not input data.
+func (P *Prog) onlyFromCallbackResults(v ssa.Value, depth int) bool {
+	if depth > 3 {
+		return false
+	}
+	switch x := cvi(v).(type) {
+	case *ssa.Extract:
+		return P.onlyFromCallbackResults(x.Tuple, depth)
+	case *ssa.Call:
+		ci := callOf(x)
+		if ci.dynamic {
+			return true
+		}
+		// reflect derivations of such a value
+		if ci.static != nil && isPkgFunc(ci.static, "reflect") && reflectAlias[ci.static.Name()] && len(x.Call.Args) > 0 {
+			return P.onlyFromCallbackResults(x.Call.Args[0], depth)
+		}
+		return false
+	case *ssa.Phi:
+		for _, e := range x.Edges {
+			if e != ssa.Value(x) && !P.phiCycleEdge(x, e) && !P.onlyFromCallbackResults(e, depth+1) {
+				return false
+			}
+		}
+		return true
+	case *ssa.Parameter:
+		idx := -1
+		for i, q := range x.Parent().Params {
+			if q == x {
+				idx = i
+			}
+		}
+		n, all := 0, true
+		for _, caller := range P.Funcs {
+			eachInstr(caller, func(_ *ssa.BasicBlock, _ int, in ssa.Instruction) {
+				if ci := callOf(in); ci != nil && ci.static == x.Parent() && idx >= 0 && idx < len(ci.args()) {
+					n++
+					if !P.onlyFromCallbackResults(ci.args()[idx], depth+1) {
+						all = false
+					}
+				}
+			})
+		}
+		return n > 0 && all
+	}
+	return false
+}
+
+// phiCycleEdge: the edge value is derived (by reflect steps) from the phi itself: a loop-carried value.
+func (P *Prog) phiCycleEdge(ph *ssa.Phi, e ssa.Value) bool {
+	for d := 0; d < 4; d++ {
+		c, ok := cv(e).(*ssa.Call)
+		if !ok || len(c.Call.Args) == 0 {
+			return false
+		}
+		if cv(c.Call.Args[0]) == ssa.Value(ph) {
+			return true
+		}
+		e = c.Call.Args[0]
+	}
+	return false
+}
+
+// mayBeZeroValue: why the reflect.Value rv, used in block b, may be the zero (invalid) Value; "" if it
+// cannot: it is guarded by IsValid() or a Kind fact, or is derived by validity-preserving steps from a
+// value that cannot (ValueOf of a non-nil interface, Elem of a pointer tested !IsNil, Index/Field/Addr ...).
+func (P *Prog) mayBeZeroValue(b *ssa.BasicBlock, rv ssa.Value, seen map[ssa.Value]bool, depth int) string {
+	if depth > 8 {
+		return "derivation too deep"
+	}
+	if seen[rv] {
+		return ""
+	}
+	seen[rv] = true
+	if P.guardedByCall(b, "IsValid", rv, true) {
+		return ""
+	}
+	if is, _ := P.kindFacts(b, rv); len(is) > 0 {
+		for k := range is {
+			if k != 0 { // Kind() == <something other than Invalid>
+				return ""
+			}
+		}
+	}
+	switch x := cv(rv).(type) {
+	case *ssa.Phi:
+		for i, e := range x.Edges {
+			pb := x.Block().Preds[i]
+			if why := P.mayBeZeroValue(pb, e, seen, depth+1); why != "" {
+				return why
+			}
+		}
+		return ""
+	case *ssa.Parameter:
+		if P.paramValidAtCallSites(x, 0) {
+			return ""
+		}
+		return "parameter " + x.Name() + " is not known to be valid at every call site"
+	case *ssa.Call:
+		ci := callOf(x)
+		if ci.static == nil || !isPkgFunc(ci.static, "reflect") || len(x.Call.Args) == 0 {
+			return ""
+		}
+		recv := x.Call.Args[0]
+		switch ci.static.Name() {
+		case "ValueOf":
+			if P.guardedNonNil(b, recv) || P.guardedNonNil(x.Block(), recv) {
+				return ""
+			}
+			if P.isCoercedValue(x) {
+				return "" // a coercer's result on the err == nil path (C06/precondition: coercers return non-nil values)
+			}
+			// the result of a user callback (a Preprocess function's output, documented as never a pointer) is
+			// the user's contract, not input data
+			fromCallback := func(v ssa.Value) bool {
+				for _, rt := range P.rootsOf(v) {
+					if c, isCall := rt.v.(*ssa.Call); isCall && rt.kind == rkOpaque && callOf(c).dynamic {
+						return true
+					}
+				}
+				return false
+			}
+			if fromCallback(recv) {
+				return ""
+			}
+			if prm, isP := cv(recv).(*ssa.Parameter); isP {
+				// a helper's parameter: the same at every call site of the helper
+				idx := -1
+				for i, q := range prm.Parent().Params {
+					if q == prm {
+						idx = i
+					}
+				}
+				n, all := 0, true
+				for _, caller := range P.Funcs {
+					eachInstr(caller, func(cb *ssa.BasicBlock, _ int, in ssa.Instruction) {
+						if ci2 := callOf(in); ci2 != nil && ci2.static == prm.Parent() && idx >= 0 && idx < len(ci2.args()) {
+							n++
+							a := ci2.args()[idx]
+							if !fromCallback(a) && !P.guardedNonNil(cb, a) {
+								all = false
+							}
+						}
+					})
+				}
+				if n > 0 && all {
+					return ""
+				}
+			}
+			if p, ok := cv(recv).(*ssa.Parameter); ok && P.isCoercerFunc(p.Parent()) {
+				return "" // coercers run on non-nil data (C06/precondition)
+			}
+			if _, isMI := cv(recv).(*ssa.MakeInterface); isMI {
+				return ""
+			}
+			// validity is then decided where a Kind fact is required; without one, a nil interface gives the zero Value
+			if is, _ := P.kindFacts(b, x); len(is) > 0 {
+				return ""
+			}
+			return "reflect.ValueOf of a possibly nil interface"
+		case "Elem", "Indirect":
+			if P.guardedByCall(x.Block(), "IsNil", recv, false) || P.guardedByCall(b, "IsNil", recv, false) {
+				return P.mayBeZeroValue(x.Block(), recv, seen, depth+1)
+			}
+			return "Elem() of a pointer or interface that was not tested with IsNil()"
+		case "FieldByName", "FieldByNameFunc", "MapIndex", "MethodByName":
+			return ci.static.Name() + "() result used without IsValid()"
+		case "Index", "Field", "FieldByIndex", "Addr", "Convert", "Slice", "Slice3":
+			return P.mayBeZeroValue(x.Block(), recv, seen, depth+1)
+		}
+	}
+	return ""
+}
+
 func (P *Prog) guardedByCall(b *ssa.BasicBlock, name string, recv ssa.Value, truth bool) bool {
 	for _, gd := range guardsOf(b) {
 		c := gd.If.Cond
@@ -884,6 +1067,22 @@ func (P *Prog) decideIndex(r *Result, g *modCG, fn *ssa.Function, s panicSite, c
 			if al, ok := s.operand.(*ssa.Alloc); ok && al.Parent() == fn {
 				r.ok("C06/panic-site", c, pos, "constant index into a local array literal")
 				return
+			}
+		}
+	}
+	// fixed-size array (a lookup table) indexed by a computed index: valid input must not run past it
+	if ia, ok := s.in.(*ssa.IndexAddr); ok && idx != nil {
+		if pt, ok := ia.X.Type().Underlying().(*types.Pointer); ok {
+			if at, ok := pt.Elem().Underlying().(*types.Array); ok {
+				if _, isC := idx.(*ssa.Const); !isC {
+					// idx <= N-1  ==  lenGuard with bound N-1
+					if !P.lenGuard(b, idx, at.Len()-1) {
+						r.bad("C06/panic-site", c, pos, fmt.Sprintf("a fixed-size [%d] table is indexed by a computed value (%s) without a dominating test that keeps it below %d: 'index out of range'", at.Len(), shortName(idx.String()), at.Len()))
+						return
+					}
+					r.ok("C06/panic-site", c, pos, fmt.Sprintf("index into a [%d] table bound-checked", at.Len()))
+					return
+				}
 			}
 		}
 	}
